@@ -202,6 +202,20 @@ R7 = {
  "C20": "SetExons stores the builder's result",
 }
 
+# Clauses added after the eighth round (DESIGN.md §10.7).
+R8 = {
+ "C02": "attribute column (or placeholder) before the comment column on every feasible path",
+ "C06": "strict entry test of Truncate's wrapped branch",
+ "C07": "strict entry test of Truncate's wrapped branch",
+ "C08": "argument checks and matrix stride of C09; border cell/letter correspondence",
+ "C09": "border cell/letter correspondence; single-cell guard of the first traceback step",
+ "C10": "k-mer space enumerated through the last word",
+ "C14": "ring size decided through the tubeIndex helper",
+ "C15": "merger built on the sequence that was filtered",
+ "C18": "rounding half selected by the sign of the rounded value",
+ "C19": "ceiling taken of a real quotient",
+}
+
 NOT_APPLICABLE = {
 }
 
@@ -232,6 +246,10 @@ def main():
                 tech = tech + "; " + R7[pid]
                 text = text + " Round 7 (DESIGN §10.6) adds: " + R7[pid] + "."
                 ref = ref + ", §10.6"
+            if pid in R8:
+                tech = tech + "; " + R8[pid]
+                text = text + " Round 8 (DESIGN §10.7) adds: " + R8[pid] + "."
+                ref = ref + ", §10.7"
             checks.append({
                 "property_id": pid,
                 "quick_cmd": "./check %s quick" % pid,
